@@ -26,6 +26,9 @@ type Late struct {
 	First  []bool   `json:"first"`  // per cycle: the held activity is the first load of a further location (else a refresh)
 	NewOK  []bool   `json:"new_ok"` // per cycle: the list offered to the held activity is acceptable (else garbage)
 	Strict bool     `json:"strict"`
+	// BadFirst: per cycle: before the cycle's provisioning, a provisioning attempt with a broken configuration (an
+	// additional crl_url that serves no CRL) fails on the same work_dir and is cleaned up by the host
+	BadFirst []bool `json:"bad_first,omitempty"`
 }
 
 var refreshSites = []string{"checker.update.start", "repo.refresh.downloaded", "repo.refresh.parsed", "repo.refresh.accepted", "repo.refresh.swap.before", "repo.refresh.swap.after",
@@ -59,6 +62,7 @@ func genLate(t *rapid.T) Late {
 		c.First = append(c.First, first)
 		c.Sites = append(c.Sites, rapid.SampledFrom(sites).Draw(t, fmt.Sprintf("site%d", i)))
 		c.NewOK = append(c.NewOK, ok)
+		c.BadFirst = append(c.BadFirst, rapid.IntRange(0, 2).Draw(t, fmt.Sprintf("badfirst%d", i)) == 0)
 	}
 	return c
 }
@@ -87,7 +91,19 @@ func runLate(c Late, x *ev.Ctx) error {
 	base := repoGoroutines()
 	defer verifhook.Set(nil)
 	reached := 0
+	o.Serve("/broken.crl", []byte("this location serves no CRL"))
 	for i, site := range c.Sites {
+		if i < len(c.BadFirst) && c.BadFirst[i] {
+			// a configuration that cannot be provisioned (one configured CRL is unusable): rejected, cleaned up by the
+			// host; it must leave nothing behind that blocks the corrected configuration on the same work_dir
+			bad := opts
+			bad.URLs = append(append([]string{}, opts.URLs...), o.URL("/broken.crl"))
+			if b, err := world.NewChecker(bad); err == nil {
+				b.Cleanup()
+				return fmt.Errorf("cycle %d: a configuration with a crl_url that serves no CRL was provisioned", i)
+			}
+			x.Class("failed-provisioning-before-the-cycle")
+		}
 		ch, err := world.NewChecker(opts)
 		if err != nil {
 			return fmt.Errorf("cycle %d: provisioning on the work_dir failed after the previous Cleanup (previous cycle held at %s): %v", i, prevSite(c, i), err)
@@ -207,7 +223,7 @@ var lateSpec = ev.Spec[Late]{
 	ID:   "C20",
 	Gen:  genLate,
 	Run:  runLate,
-	Rule: "late activity: 1..5 provision/cleanup cycles on one work_dir in which Cleanup arrives while a refresh or the first load of a further location is held at one of the verif hook sites (download done, parsed, accepted, before/after the store swap, every step of the LevelDB / map swap); the held activity is then released and finishes AFTER Cleanup; the offered list is acceptable or garbage; disk or memory, optionally a configured crl_url. Oracles: Cleanup returns; the activity finishes; afterwards no goroutine of the plugin/leveldb is alive and no file descriptor of the process points into work_dir; the next provisioning on the same work_dir succeeds and the listed certificate is revoked, the unlisted one accepted. Non-trivial: the activity really was held at the site at least once.",
+	Rule: "late activity: 1..5 provision/cleanup cycles on one work_dir in which Cleanup arrives while a refresh or the first load of a further location is held at one of the verif hook sites (download done, parsed, accepted, before/after the store swap, every step of the LevelDB / map swap); the held activity is then released and finishes AFTER Cleanup; the offered list is acceptable or garbage; disk or memory, optionally a configured crl_url; optionally a provisioning attempt with a broken configuration (rejected, cleaned up by the host) precedes a cycle. Oracles: Cleanup returns; the activity finishes; afterwards no goroutine of the plugin/leveldb is alive and no file descriptor of the process points into work_dir; the next provisioning on the same work_dir succeeds and the listed certificate is revoked, the unlisted one accepted. Non-trivial: the activity really was held at the site at least once.",
 }
 
 func TestLate(t *testing.T)       { ev.Check(t, lateSpec) }
